@@ -27,17 +27,17 @@ FILES = {
     "src/symbol/mod.rs": ["C16", "C15", "C08", "C18"],
     "src/symbol/huffman.rs": ["C15", "C16"],
     "src/symbol/exp_golomb.rs": ["C16", "C15"],
-    "src/stream/model/categorical.rs": ["C19", "C03", "C05", "C20"],
-    "src/stream/model/categorical/contiguous.rs": ["C03", "C05", "C19", "C10", "C06"],
-    "src/stream/model/categorical/non_contiguous.rs": ["C03", "C05", "C19", "C10"],
-    "src/stream/model/categorical/lazy_contiguous.rs": ["C03", "C05", "C19", "C10"],
-    "src/stream/model/categorical/lookup_contiguous.rs": ["C05", "C03", "C10", "C19", "C20"],
-    "src/stream/model/categorical/lookup_noncontiguous.rs": ["C05", "C03", "C10", "C19", "C20"],
-    "src/stream/model/quantize.rs": ["C03", "C05", "C19", "C10", "C09", "C06"],
-    "src/stream/model/uniform.rs": ["C03", "C05", "C19", "C09"],
-    "src/stream/model.rs": ["C03", "C05", "C10"],
+    "src/stream/model/categorical.rs": ["C19", "C03", "C05", "C20", "C18"],
+    "src/stream/model/categorical/contiguous.rs": ["C03", "C05", "C19", "C10", "C18", "C06"],
+    "src/stream/model/categorical/non_contiguous.rs": ["C03", "C05", "C18", "C19", "C10"],
+    "src/stream/model/categorical/lazy_contiguous.rs": ["C03", "C05", "C19", "C10", "C18"],
+    "src/stream/model/categorical/lookup_contiguous.rs": ["C05", "C03", "C10", "C19", "C18", "C20"],
+    "src/stream/model/categorical/lookup_noncontiguous.rs": ["C05", "C03", "C10", "C19", "C18", "C20"],
+    "src/stream/model/quantize.rs": ["C03", "C05", "C19", "C10", "C09", "C18", "C06"],
+    "src/stream/model/uniform.rs": ["C03", "C05", "C19", "C09", "C18"],
+    "src/stream/model.rs": ["C03", "C05", "C18", "C10"],
     "src/stream/mod.rs": ["C01", "C02", "C13"],
-    "src/lib.rs": ["C07", "C17", "C01", "C02", "C04"],
+    "src/lib.rs": ["C03", "C07", "C17", "C01", "C02", "C04", "C19"],
 }
 
 BINOPS = [
@@ -123,6 +123,7 @@ def main():
     ap.add_argument("--keep", action="store_true")
     ap.add_argument("--list", action="store_true", help="only count mutation sites")
     ap.add_argument("--no-suite", action="store_true")
+    ap.add_argument("--retest", help="re-run the survivors recorded in this results file against the current checks")
     a = ap.parse_args()
     files = a.files or list(FILES)
     repo, verif = os.path.join(a.scratch, "repo"), os.path.join(a.scratch, "verif")
@@ -155,6 +156,14 @@ def main():
     rnd = random.Random(a.seed)
     rnd.shuffle(allm)
     chosen = allm[: a.n]
+    if a.retest:
+        want = set()
+        for line in open(a.retest if os.path.isabs(a.retest) else os.path.join(ROOT, a.retest)):
+            r = json.loads(line)
+            if r["status"] == "survived":
+                want.add((r["file"], r["line"] - 1, r["op"], r["after"]))
+        chosen = [m for m in allm if (m[0], m[1], m[2], m[4].strip()) in want]
+        a.no_suite = True
     print("%d mutation sites in %d files; %d sampled (seed %d)" % (len(allm), len(files), len(chosen), a.seed), flush=True)
     stats = {}
     for k, (f, i, op, before, after) in enumerate(chosen):
